@@ -103,7 +103,9 @@ pub fn profile(id: &str) -> Option<Profile> {
             g.allow_compressed = true;
             g.force_compressed = true;
             g.allow_backing = true;
-            g.op_weights = [50, 20, 8, 8, 2, 5, 0, 0, 3];
+            g.backing_pct = 65;
+            g.tiny_cache_pct = 65;
+            g.op_weights = [46, 18, 8, 12, 3, 8, 0, 0, 3];
             g.par_pct = 15;
             g.hot_clusters = 5;
             o.need_flush = false;
@@ -185,6 +187,8 @@ pub fn profile(id: &str) -> Option<Profile> {
 
 thread_local! {
     static PANIC_INFO: RefCell<Option<String>> = const { RefCell::new(None) };
+    /// the property whose check is running (profile id)
+    pub static CURRENT_PROP: std::cell::Cell<&'static str> = const { std::cell::Cell::new("") };
     /// what the run was doing (appended to a panic report)
     pub static PANIC_CTX: RefCell<String> = const { RefCell::new(String::new()) };
     /// set by the concurrent engine when the current run contained a discard
